@@ -74,6 +74,38 @@ pub fn run(_a: &Args) {
     println!("log={}", log.lock().unwrap().join(","));
     starting(&log2);
     instant();
+    resubscribe();
+}
+
+/// a survivor keeps receiving while others stop and new ones subscribe: subscribe a and b; stop a; publish; subscribe c (prunes a's finished forwarder); stop c;
+/// publish; publish three more - b must receive every publication once, in order
+fn resubscribe() {
+    let log = Arc::new(Mutex::new(Vec::new()));
+    let rt = tokio::runtime::Builder::new_current_thread().enable_time().start_paused(true).build().unwrap();
+    rt.block_on(async {
+        let port = OutputPort::<u64>::default();
+        let (a, _ha) = Actor::spawn(None, Subscriber { who: "a", log: log.clone() }, ()).await.unwrap();
+        let (b, _hb) = Actor::spawn(None, Subscriber { who: "b", log: log.clone() }, ()).await.unwrap();
+        port.subscribe(a.clone(), Some);
+        port.subscribe(b.clone(), Some);
+        settle().await;
+        a.stop(None);
+        settle().await;
+        port.send(0);
+        settle().await;
+        let (c, _hc) = Actor::spawn(None, Subscriber { who: "c", log: log.clone() }, ()).await.unwrap();
+        port.subscribe(c.clone(), Some);
+        settle().await;
+        c.stop(None);
+        settle().await;
+        for v in [1u64, 2, 3, 4] {
+            port.send(v);
+            settle().await;
+        }
+        b.stop(None);
+        settle().await;
+    });
+    println!("resubscribe={}", log.lock().unwrap().join(","));
 }
 
 /// two subscribers created with `spawn_instant` (their refs exist, and accept messages, before their start-up tasks were polled once) subscribe straight
